@@ -15,6 +15,7 @@ LEVEL_TEXT = ("Full-strength theorem over the bus model: for every history of su
               "counterexample theorem; with enough fuel for the re-entrancy depth nothing is dropped (every produced value and every handler reaction is in its topic's log). Topic injectivity is proved over Gen/Constants.lean, which is re-extracted from topic_naming.py on "
               "every run, so colliding affixes break the proof. The model is tied to internal.py by differential operation sequences "
               "(exhaustive up to 4/5 operations over 2 topics x 2 consumers, with and without re-entrant handlers, plus seeded longer ones).")
+LEVEL_ADDENDUM = 'Session 8: reactions publish BURSTS (1-3 values, to the same and to different topics); the registry of state interfaces (state_interface.add / interfaces / get_interface) is modelled (Core/Registry) and proved (Props/C15Registry: the pair registered last under a name is returned, KeyError iff a side is missing, listed iff both sides present - and external when asked -, other names untouched, for every history) and compared with the real module on generated registration histories.'
 LEVEL_NOTE = "Trusts: Lean kernel; hand-written bus model; asyncio inline-await semantics; Python set iteration order is abstracted (only per (consumer, topic) sequences are compared)."
 ASSUMPTIONS = ["a handler reacting to a value that arrived on topic T publishes only to topics of higher rank than T (the reading of 'other topics'); it may publish to topics its own consumer subscribes to",
                "a (consumer, topic) pair is subscribed once", "handlers do not subscribe"]
